@@ -270,9 +270,10 @@ def judgeFault (w L : Nat) (r : Prefix) (op : Op) (k : Nat) (c : Case) : Option 
     | _, _ => some "unreadable snapshot"
   | _, _, _, _ => some s!"the call did not return to the caller: {(obsString c).take 80}"
 
-/-- the model the fault cases are compared with.  Stage 1 of the C19 work: the members *as found in the pinned tree*
-    (the library is not yet repaired); switched to `Op.run` (the repaired members) once the `fix:` commit is in. -/
-def faultModel : Op → M Unit := Op.runAsFound
+/-- the model the fault cases are compared with: the repaired members (`Op.run`, about which `Props/C19.lean` proves
+    `fault_safe`).  Before the `fix:` commit of the library this was `Op.runAsFound` (the members as found in the pinned
+    tree), with which the check reported the defect as "model and implementation agree, the property fails". -/
+def faultModel : Op → M Unit := Op.run
 
 def handleFault (c : Case) : Verdict :=
   let w := widthOf c
